@@ -182,7 +182,15 @@ def _schemas(ctx, py):
                     for k in c.keywords:
                         if k.arg == "columns":
                             got.append(ast.unparse(k.value))
-        ok = sorted(got) == sorted(want)
+        ns = dict(vars(getattr(py, m)))
+
+        def val(e):
+            try:
+                v = eval(e, ns)          # column constants / literal lists: compare VALUES, not spellings
+                return ("value", tuple(v))
+            except Exception:
+                return ("text", e.replace(" ", ""))
+        ok = sorted(map(val, got)) == sorted(map(val, want))
         ctx.ob("C19.schema.%s.%s" % (m, f), "c", ok, "ast", 0.0, "tables are built with columns=%s" % got if ok else "columns= expressions %s, documented %s" % (got, want),
                cex=None if ok else dict(found=got, documented=want))
 
